@@ -158,6 +158,9 @@ class ServerCore:
                 hello, payloads = self.decode_rx()
                 if hello is not None and self.client_hello is None:
                     self.client_hello = hello.decode('utf-8', 'replace')
+                    # chunked framing only if the CLIENT advertised base:1.1 too (e.g. the alu profile does not)
+                    self.base11 = (B11 in self.caps) and ('<capability>%s</capability>' % B11 in self.client_hello.replace('nc:', ''))
+                    hello, payloads = self.decode_rx()
                 while self.n_handled < len(payloads):
                     req = payloads[self.n_handled].decode('utf-8', 'replace')
                     if not self.base11:
